@@ -923,20 +923,7 @@ func (f *frame) binop(x *ssa.BinOp, pc *Term) Val {
 		return Val{T: r, Typ: x.Type()}
 	case token.LSS, token.LEQ, token.GTR, token.GEQ:
 		if bs, ok := t.Underlying().(*types.Basic); ok && bs.Info()&types.IsString != 0 {
-			fn := "str_lt"
-			c.declFun(fn, []*Sort{c.strSort(), c.strSort()}, BoolSort)
-			var r *Term
-			switch x.Op {
-			case token.LSS:
-				r = App(fn, BoolSort, a.T, b.T)
-			case token.GTR:
-				r = App(fn, BoolSort, b.T, a.T)
-			case token.LEQ:
-				r = Not(App(fn, BoolSort, b.T, a.T))
-			default:
-				r = Not(App(fn, BoolSort, a.T, b.T))
-			}
-			return Val{T: r, Typ: x.Type()}
+			return Val{T: c.strCmp(x.Op, a.T, b.T), Typ: x.Type()}
 		}
 		_, signed, _ := intInfo(t)
 		return Val{T: c.cmp(x.Op, a.T, b.T, signed), Typ: x.Type()}
